@@ -152,6 +152,111 @@ def rule_null_links_immutable(ctx):
     r.floor(16)
 
 
+def _size_lower_bounds(f, n, db):
+    """{receiver-root expression: minimal size} from the dominating facts of node n: `R->Len() >= k`, `R.size() > k`,
+    `R->GetStr().size() > k` ... (true polarity), looking through a local bool flag whose single definition is a
+    conjunction"""
+    import re
+    from ..flow import ReachingDefs, var_id
+    out = {}
+
+    def leaf(s, pol):
+        m = re.match(r"^(.*?)(?:->Len\(\)|(?:->(?:GetStr|Str)\(\))?\.size\(\)|\.length\(\)) (>=|>|!=|==) (\d+)$", s)
+        if m and pol is True and m.group(2) in (">=", ">"):
+            k = int(m.group(3)) + (1 if m.group(2) == ">" else 0)
+            out[m.group(1)] = max(out.get(m.group(1), 0), k)
+        m = re.match(r"^(.*?)(?:->Len\(\)|(?:->(?:GetStr|Str)\(\))?\.size\(\)) (<|<=|==) (\d+)$", s)
+        if m and pol is False and m.group(2) in ("<", "<="):
+            k = int(m.group(3)) + (1 if m.group(2) == "<=" else 0)
+            out[m.group(1)] = max(out.get(m.group(1), 0), k)
+
+    def conj(i, depth=0):
+        x = f.nodes.get(i)
+        if x is None or depth > 6:
+            return
+        if x["k"] == "bin" and x.get("op") == "&&":
+            conj(x["a"][0], depth + 1)
+            conj(x["a"][1], depth + 1)
+        elif x["k"] == "cast":
+            conj(x["a"][0], depth + 1)
+        else:
+            leaf(expr_str(f, i), True)
+    rd = None
+    for cn, pol in f.guard_conds(f.nblock[n["i"]]):
+        if cn is None or not isinstance(pol, bool):
+            continue
+        leaf(expr_str(f, cn), pol)
+        c = f.nodes.get(cn)
+        if c is not None and c["k"] == "ref" and c.get("d") == "lv" and pol is True:
+            rd = rd or ReachingDefs(f, db)
+            defs = list(rd.at(cn, var_id(c)))
+            hard = [d for d in defs if d[0] in ("decl", "asg")]
+            # flag idiom: `bool flag = A && B && C; ... flag = false; ... if (flag)`: true only through the conjunction
+            for d in hard:
+                rhs = rd.rhs_of(d)
+                x = f.nodes.get(rhs) if rhs is not None else None
+                if x is not None and x["k"] == "bool" and x["v"] == 0:
+                    continue
+                if x is not None and all((f.nodes.get(rd.rhs_of(o)) or {}).get("k") == "bool" and f.nodes[rd.rhs_of(o)]["v"] == 0 for o in hard if o is not d):
+                    conj(rhs)
+    return out
+
+
+def rule_text_index(ctx):
+    """a checked index (`.at(k)`) into a chunk's text throws std::out_of_range, which nothing catches: each such site
+    needs a dominating length test.  (Found on the pinned tree: `/*x` at the end of the input with
+    cmt_trailing_single_line_c_to_cpp aborted; repaired by a fix: commit.)"""
+    import re
+    db = ctx.db
+    r = ctx.rule("text-index", "every UncText::at(k) / std::basic_string::at(k) with a constant index is dominated by a length test of the "
+                 "same text that makes the index valid (directly, through a bool flag defined as a conjunction, or through the length "
+                 "argument of the UncText the receiver was constructed from)")
+    n_sites = 0
+    for f in db.funcs.values():
+        if f.d.get("cls") == "UncText" or f.file == "src/uncrustify_emscripten.cpp":
+            continue
+        for n in f.nodes.values():
+            c = n.get("c") or ""
+            if n["k"] != "call" or not (c == "UncText::at" or (c.startswith("std::basic_string<") and c.endswith("::at"))):
+                continue
+            n_sites += 1
+            r.seen()
+            idx = f.nodes.get(n["a"][0]) if n.get("a") else None
+            while idx is not None and idx["k"] == "cast":
+                idx = f.nodes.get(idx["a"][0])
+            recv = expr_str(f, n["o"]) if "o" in n else "?"
+            inst = "%s/%s.at(%s)" % (f.qn, recv, expr_str(f, n["a"][0]) if n.get("a") else "")
+            loc = db.loc(f, n)
+            if idx is None or idx["k"] != "int":
+                r.fail(inst, loc, "index `%s` of a throwing text accessor is not a constant; no length argument is derived for it" % (expr_str(f, n["a"][0]) if n.get("a") else "?"))
+                continue
+            k = idx["v"]
+            lb = _size_lower_bounds(f, n, db)
+            root = re.sub(r"(->(GetStr|Str)\(\))$", "", recv)
+            have = max(lb.get(root, 0), lb.get(recv, 0))
+            if have == 0:
+                # receiver is a local UncText built as UncText(src, 0, L) with L = `X->Len() - c`
+                o = f.nodes.get(n.get("o"))
+                if o is not None and o["k"] == "ref" and o.get("d") == "lv":
+                    for m in f.nodes.values():
+                        if m["k"] == "decl":
+                            for v in m.get("vars", ()):
+                                if v["n"] == o["n"] and v.get("init") is not None:
+                                    ini = f.nodes.get(v["init"])
+                                    while ini is not None and ini["k"] == "cast":
+                                        ini = f.nodes.get(ini["a"][0])
+                                    if ini is not None and ini["k"] == "ctor" and len(ini.get("a", ())) >= 3:
+                                        L = expr_str(f, ini["a"][2])
+                                        mm = re.match(r"^(.*?)->Len\(\) - (\d+)$", L)
+                                        if mm:
+                                            have = max(0, lb.get(mm.group(1), 0) - int(mm.group(2)))
+            r.check(have >= k + 1, inst, loc, "`%s.at(%d)` needs a text of at least %d characters, the dominating tests guarantee %d: a shorter "
+                    "text (e.g. a construct cut off by the end of the input) throws std::out_of_range, which nothing catches (SIGABRT)"
+                    % (recv, k, k + 1, have))
+    r.require(n_sites >= 2, "only %d constant-index text accessors found" % n_sites)
+    r.floor(2)
+
+
 def rule_no_throw(ctx):
     db = ctx.db
     r = ctx.rule("no-throw", "every std::basic_regex construction/assignment from a non-literal and every std::sto* call sits inside a try "
@@ -341,4 +446,4 @@ def rule_no_error_after_output(ctx):
     r.floor(1)
 
 
-RULES = [rule_sentinel_divergence, rule_eof_divergence, rule_null_links_immutable, rule_no_throw, rule_exit_discipline, rule_no_error_after_output]
+RULES = [rule_sentinel_divergence, rule_eof_divergence, rule_null_links_immutable, rule_no_throw, rule_text_index, rule_exit_discipline, rule_no_error_after_output]
